@@ -6,9 +6,9 @@
 #   3. unedited `make check` passes with the patch       4. demo with the patch exits non-zero
 # Prints one line "VERIFY <dir> demo_orig=<rc> build=<rc> suite=PASS:<n>/FAIL:<n> demo_mut=<rc> => OK|REJECT". Always restores the copy.
 d=$(readlink -f "$1"); mention=${2:-}
-S=/var/tmp/vs; J=${J:-8}
+S=/var/tmp/vs${VS_COPY:-}; J=${J:-8}
 head=$(git -C /repo rev-parse HEAD)
-exec 9>/var/tmp/vs.lock; flock 9
+exec 9>$S.lock; flock 9
 if [ ! -f $S/.built ] || [ "$(cat $S/.built)" != "$head" ]; then
   rm -rf $S && mkdir -p $S && (cd /repo && git archive HEAD | tar -x -C $S) && cd $S || exit 2
   (./autogen.sh >/dev/null 2>&1 || true); ./configure >/dev/null 2>&1 && make -j$J >/dev/null 2>&1 || { echo "baseline build failed"; exit 2; }
